@@ -5,14 +5,43 @@ VERIF_CHAIN_DELAYS   JSON {"start": {"<chain>": seconds}, "finish": {"<chain>": 
                      "finish_after": {"<chain>": [chains]}}: sleep before / after the body of
                      phyclone.run.run_phyclone_chain for that chain, or hold its return until the named chains have
                      logged their finish (the body itself is untouched) - reorders the completion of parallel chains on
-                     demand, by logical order rather than by a wall-clock guess.
+                     demand, by logical order rather than by a wall-clock guess.  "die": {"<chain>": "exit" | "raise"}:
+                     after that wait the chain's worker process dies (os._exit) or the chain raises instead of
+                     returning - the run is interrupted after some chains completed and before the others did.
 VERIF_CHAIN_LOG      file to which every chain appends "<chain> <event> <monotonic time> <pid>".
 VERIF_WRITE_FAULT    JSON {"at": N, "mode": "kill" | "enospc"}: the N-th byte written through gzip.GzipFile's underlying
                      file object is the last one that reaches the file; then the process dies (os._exit) or the write
                      raises OSError(ENOSPC).
+VERIF_CLOCK_SKEW     JSON {"seed": S, "max": seconds}: every reading of time.perf_counter / perf_counter_ns / process_time /
+                     time.time (and so timeit's default timer) is the real reading plus a drift that grows by a seeded
+                     random amount in [0, max] per call - clocks stay monotone but every measured interval is perturbed,
+                     as it is by load, frequency scaling or another host.  time.monotonic (used by the interpreter's own
+                     waits) is left alone.
 """
 
 import os
+
+if os.environ.get("PHYCLONE_VERIF") == "1" and os.environ.get("VERIF_CLOCK_SKEW"):
+    import json as _json
+    import random as _random
+    import time as _time
+
+    _sk = _json.loads(os.environ["VERIF_CLOCK_SKEW"])
+    _sk_rng = _random.Random("%s-%d" % (_sk.get("seed", 0), os.getpid() % 7))
+    _sk_state = [0.0]
+    _sk_max = float(_sk.get("max", 0.02))
+
+    def _skewed(real, scale=1.0, cast=float):
+        def clock():
+            _sk_state[0] += _sk_rng.random() * _sk_max
+            return cast(real() + _sk_state[0] * scale)
+
+        return clock
+
+    _time.perf_counter = _skewed(_time.perf_counter)
+    _time.perf_counter_ns = _skewed(_time.perf_counter_ns, 1e9, int)
+    _time.process_time = _skewed(_time.process_time)
+    _time.time = _skewed(_time.time)
 
 if os.environ.get("PHYCLONE_VERIF") == "1":
     _delays = os.environ.get("VERIF_CHAIN_DELAYS")
@@ -60,6 +89,14 @@ if os.environ.get("PHYCLONE_VERIF") == "1":
                             break
                         time.sleep(0.05)
                     time.sleep(1.0)
+                die = _cfg.get("die", {}).get(str(chain))
+                if die:
+                    # crash point of the run as a whole: this chain's worker is lost (killed) or its result is an
+                    # exception, after the chains named in finish_after have been handed back to the parent
+                    log("die")
+                    if die == "exit":
+                        os._exit(137)
+                    raise MemoryError("injected chain failure (verif failpoint)")
                 log("finish")
                 return res
 
